@@ -240,7 +240,20 @@ pub fn run_concurrent(prog: &Program, cfg: &EpCfg) -> EpResult {
 							}
 							if a.panic {
 								let before = tc.stats.panics_injected;
+								let bad_before = w.bad_releases_of(tid);
 								let r = guarded(|| tc.run_acq(a));
+								if w.bad_releases_of(tid) > bad_before {
+									// C11: every lock held by the call is released exactly once, in its mode
+									w.violate(
+										"C11",
+										"bad_release_around_panic",
+										format!(
+											"{}: thread {tid} issued {} release(s) the audit rejected (not held / wrong mode) while the call and its panic unwound",
+											acq_desc(a),
+											w.bad_releases_of(tid) - bad_before
+										),
+									);
+								}
 								match r {
 									Ok(()) => {
 										if tc.stats.panics_injected > before {
